@@ -503,6 +503,32 @@ def r4_names_as_configured(ctx):
     return r
 
 
+def supported_and_default(ctx, new_id, title, reason):
+    """the clauses of this property other properties rest on when they say `a supported locale` / `the default locale`: the run-time
+    enum lists the configured locales in order with `#[default]` on the first, `as_icu_locale` of a variant is the ICU locale of its own
+    configured name, `get_all` lists every variant - and the configuration loader put the configured default first (C19.R0)"""
+    import os
+    from rules import c19
+    from rules.common import borrow
+    r0, ok, why = r0_generated(ctx)
+    only = r"^variants|^as_icu_locale|^get_all|create_locales_enum#(variants|as_icu_locale|get_all|result)|undecided"
+    out = borrow(r0, new_id, title, reason, only=only, floor=3)
+    rid = new_id.split(".")[-1]
+    if not ok or os.environ.get("VERIF_FORCE_FALLBACK"):
+        if not ok and not r0.violations:
+            out.viol("%s:undecided" % rid, "create_locales_enum cannot be interpreted on the current code (%s): decided by the structural clauses only (fail closed)" % str(why)[:200])
+        k1 = borrow(r1_enum(ctx), new_id, title, reason, only=r"icu-const|const_icu_locales|enum-variants|get_all|as_icu_locale", floor=0)
+        out.instances += k1.instances
+        for v in k1.violations:
+            out.viol(v.key, v.msg, file=v.file, line=v.line)
+    k0, _ok, _why = c19.r0_config(ctx)
+    k2 = borrow(k0, new_id, title, reason, only=r"ConfigFile::new", floor=0)
+    out.instances += k2.instances
+    for v in k2.violations:
+        out.viol(v.key, v.msg, file=v.file, line=v.line)
+    return out
+
+
 def run(ctx):
     import os
     r0, ok, why = r0_generated(ctx)
